@@ -163,4 +163,13 @@ PROPS["C12"] = {
     "assumptions": COMMON_ASSUMPTIONS + ["aliasing can only arise from the statement forms the taint analysis knows (store, append element, NewBuffer, composite literal, return, send)"],
 }
 
+PROPS["C08"] = {
+    "families": ["OF"], "ops": "dec,decc,prog,fn", "gen_deps": ["protocol."],
+    "rule": DEC_RULE + " For C08 the protocol-package decoders: Ethernet (tagged/untagged), ARP, IPv4 (every IHL), IPv6 with hop-by-hop/routing/fragment chains and options, ICMP, TCP, UDP, IGMP v1/v2/v3 query, group record, report, DHCP Write and DHCPParseOptions, LLDP TLVs.",
+    "trivial_outputs": ["err", "panic", "spin", "-"],
+    "level_text": "Kernel-checked totality theorems for EVERY protocol-package decoder of the model: for any receiver and any well-formed slice (len <= cap) the result is a value or an error, never a panic and never a non-terminating loop — leaf decoders (VLAN, ARP, ICMP, TCP, UDP, IGMPv1/2, fragment, option, routing, util.Buffer), loops (hop-by-hop options, DHCP option list, IGMPv3 query/record/report) via the goLoop progress lemmas, composites (IPv4, IPv6 extension chain, Ethernet, DHCP, LLDP with an explicit non-nil-receiver hypothesis) from their parts; the regenerated size functions (HopByHopHeader.Len, RoutingHeader.Len, Option.Len, IGMPv3*.Len translated from the Go source on every run) are shown to be 8*(HEL+1) >= 8 / Length+2 >= 2 without 8-bit wrap. Every loop's fuel is linear in the input length. Oracle on the implementation: no decoder call of the generated byte strings panics or spins.",
+    "level_note": OF_NOTE + " The theorems are about the code after the decoder repairs (fix commits 398adf7, 4326582, 43786dd, 85ab893, 2ae69ca, 00a04ac). Time/memory proportionality is proved as 'fuel linear in the input'; the model has no finer cost notion.",
+    "assumptions": COMMON_ASSUMPTIONS + ["slices are well formed (len <= cap)"],
+}
+
 NOT_YET = {}
